@@ -27,7 +27,20 @@ func binSample(c *fw.Ctx, res *fw.Result, idx int, tag string, files map[string]
 	os.MkdirAll(d, 0755)
 	defer os.RemoveAll(d)
 	p := func(name string) string {
-		fp := filepath.Join(d, name)
+		actual := name
+		if fw.Mix(uint64(idx)*131+uint64(len(name))+uint64(name[0]))%4 == 0 {
+			// a file name with characters that mean something to a shell or to a glob matcher but
+			// nothing to open(2): `batch[1].sam` next to an unrelated `batch1.sam`
+			ext := filepath.Ext(name)
+			stem := strings.TrimSuffix(name, ext)
+			actual = stem + "[1]" + ext
+			decoy := filepath.Join(d, stem+"1"+ext)
+			if _, err := os.Stat(decoy); err != nil {
+				os.WriteFile(decoy, []byte(staleContent(300)), 0644)
+				res.Count("binary_input_files_named_like_a_glob_pattern", 1)
+			}
+		}
+		fp := filepath.Join(d, actual)
 		if _, err := os.Stat(fp); err != nil {
 			os.WriteFile(fp, []byte(files[name]), 0644)
 		}
